@@ -402,8 +402,10 @@ def print_kauri_tree(kauri_tree, feature_names=None):
         raise ValueError(f"The passed instance is not a KauriTree, got: {kauri_tree.__class__}")
     check_is_fitted(kauri_tree)
     if feature_names is not None:
+        if np.ndim(feature_names) != 1:
+            raise ValueError("The feature names must be a one-dimensional array-like indexed by feature")
         used_features = [x for x in kauri_tree.tree_.features if x is not None]
-        if len(feature_names) < len(np.unique(used_features)):
+        if len(used_features) > 0 and len(feature_names) <= max(used_features):
             raise ValueError("Fewer feature names than used features by the tree were provided")
 
     def print_node(node_id):
